@@ -452,9 +452,9 @@ def smoke(tier):
             out.append(("family", (hw % 4, (hw + part) % len(QUICK_NEW), hw, 1, 3), part, len(PARTS)))
     for part, (f, pos) in enumerate(attr_cells()):
         nk = len(key_sets(f.D))
-        for ki in range(0, nk, 2):
+        for ki in range(0, nk, 3):
             for oi in range(len(AOPS)):
-                out.append(("attr_item", (0, ki + (oi % 2), oi, 1, 2), part, len(attr_cells())))
+                out.append(("attr_item", (0, ki + (oi % 3), oi, 1, 2), part, len(attr_cells())))
     return out
 
 
